@@ -30,6 +30,9 @@ Classify(cfg, o, w) ==
     [] w.c = "C16.start_after_stop" /\ w.k = "rl_restart"                    -> "G3"
     [] w.c \in {"C08.regress", "C08.results_added"} /\ w.k = "newbus"        -> "F4"
     [] w.c \in {"C03.incomplete", "C04.incomplete"} /\ w.k = "regressed"       -> "F4"
+    \* F4 again: the awaited (forwarded) event was complete, a later bus added results - and those handlers' children are not done either
+    [] w.c = "C03.incomplete" /\ (\E x \in o.wit : x.c \in {"C08.regress", "C08.results_added"} /\ x.k = "newbus" /\ x.e = w.a)
+                              /\ w.e \in Sub(o, w.a)                           -> "F4"
     [] w.c = "C09.event_bus" /\ w.k = "lastpath"                             -> "F9"
     [] w.c = "C01.missing" /\ <<w.b, w.e>> \in StrandedR(cfg, o)             -> "F2"
     [] w.c = "C01.missing" /\ <<w.b, w.e>> \in AbandonedC(o)                 -> "F5"
